@@ -316,7 +316,7 @@ func (w *c09World) opTransfer() {
 }
 
 func checkC09(run *mon.Run, rng *mon.Rand, thorough bool) {
-	run.Rule = "seeded random L2 histories: deposits (credited, refunded to unusable recipients, zero, naming a conflicting base denom), transfers, withdrawals by any user of bridged / native / never-seen denoms for amounts below, equal to and above the balance and zero; supply ledger, gap-free shared L2 sequence, write-once denom mapping and exact signer-only burn checked after every message. Distinct non-trivial = (denom kind, amount class, outcome) cells x histories that contain a refund, a conflicting-base deposit, a rejected non-bridged withdrawal and an overdraw attempt"
+	run.Rule = "seeded random L2 histories: deposits (credited, refunded to unusable recipients, zero, naming a conflicting base denom), transfers, withdrawals by any user of bridged / native / never-seen denoms for amounts below, equal to and above the balance and zero; supply ledger, gap-free shared L2 sequence, write-once denom mapping and exact signer-only burn checked after every message. Distinct non-trivial = (denom kind, amount class, outcome) cells x histories that contain a refund, a conflicting-base deposit, a rejected non-bridged withdrawal and an overdraw attempt Plus: committed replays of processed sequences naming other denoms, deposits with an error/panic injected at the handler's mint/transfer, shadow activity on discarded branches."
 	run.Assumptions = []string{"bank is the cosmos-sdk keeper", "rejected withdrawals are rolled back by baseapp (handler burns before it learns the denom is not bridged)"}
 	for _, c := range []string{"C09.supply_conserved", "C09.l2_sequence_query", "C09.denom_pair_write_once", "C09.no_pair_for_non_l1_tokens", "C09.l2_sequence_gap_free", "C09.event_base_denom_from_pair",
 		"C09.only_l1_tokens_withdrawable", "C09.response_sequence", "C09.burn_exact_signer_only", "C09.event_faithful"} {
